@@ -6,6 +6,7 @@ import (
 	"sync"
 	"sync/atomic"
 
+	"github.com/fatedier/frp/pkg/util/verifhook"
 	"github.com/fatedier/frp/pkg/util/vhost"
 )
 
@@ -40,11 +41,13 @@ func (ctl *HTTPGroupController) Register(
 	}
 	ctl.mu.Unlock()
 
+	verifhook.At("server.group.http.afterLookup", group, proxyName)
 	return g.Register(proxyName, group, groupKey, routeConfig)
 }
 
 func (ctl *HTTPGroupController) UnRegister(proxyName, group string, _ vhost.RouteConfig) {
 	indexKey := group
+	verifhook.At("server.group.http.unregister.enter", group, proxyName)
 	ctl.mu.Lock()
 	defer ctl.mu.Unlock()
 	g, ok := ctl.groups[indexKey]
